@@ -2205,6 +2205,65 @@ extern void dgeev_(char* jobvl, char* jobvr, int* n, double* a,
                 int* lda, double* wr, double* wi, double* vl, int* ldvl,
                 double* vr, int* ldvr, double* work, int* lwork, int* info);
 
+extern void dsyev_(char* jobz, char* uplo, int* n, double* a, int* lda,
+                   double* w, double* work, int* lwork, int* info);
+
+/* Symmetric input: the symmetric driver returns real, mutually orthogonal unit
+ * eigenvectors also for repeated eigenvalues. The general driver may deliver a
+ * repeated eigenvalue as a complex conjugate pair (imaginary part 1e-16) and
+ * then stores Re(v) and Im(v) in two columns: the second one is rounding noise.
+ */
+static int EVectEvalSymmetric(matrix *m, dvector *eval, matrix *evect)
+{
+  size_t i, j;
+  int n = (int)m->row, lda = (int)m->row, info, lwork;
+  double wkopt, *work, *a, *w;
+
+  if(m->row != m->col || m->row == 0)
+    return 0;
+
+  for(i = 0; i < m->row; i++){
+    for(j = 0; j < i; j++){
+      if(m->data[i][j] != m->data[j][i])
+        return 0;
+    }
+  }
+
+  a = xmalloc(sizeof(double)*m->row*m->row);
+  w = xmalloc(sizeof(double)*m->row);
+  for(i = 0; i < m->row; i++){
+    for(j = 0; j < m->col; j++){
+      a[i+j*m->row] = m->data[i][j];
+    }
+  }
+
+  lwork = -1;
+  dsyev_("V", "U", &n, a, &lda, w, &wkopt, &lwork, &info);
+  lwork = (int)wkopt;
+  work = xmalloc(lwork*sizeof(double));
+  dsyev_("V", "U", &n, a, &lda, w, work, &lwork, &info);
+  xfree(work);
+
+  if(info != 0){
+    xfree(a);
+    xfree(w);
+    return 0;
+  }
+
+  /* largest eigenvalue first, as the general driver usually returns them */
+  DVectorResize(eval, m->row);
+  ResizeMatrix(evect, m->row, m->row);
+  for(j = 0; j < m->row; j++){
+    eval->data[j] = w[m->row-1-j];
+    for(i = 0; i < m->row; i++){
+      evect->data[i][j] = a[i+(m->row-1-j)*m->row];
+    }
+  }
+  xfree(a);
+  xfree(w);
+  return 1;
+}
+
 void EVectEval(matrix *m, dvector *eval, matrix *evect)
 {
   /* Locals */
@@ -2212,6 +2271,10 @@ void EVectEval(matrix *m, dvector *eval, matrix *evect)
   size_t j;
   size_t k;
   size_t N;
+
+  if(EVectEvalSymmetric(m, eval, evect) == 1)
+    return;
+
   N = m->row;
   int LDA = N;
   int LDVL = N;
